@@ -3,8 +3,6 @@ import OmplModel.Proofs.WorldFrameDubins
 import Mathlib.Analysis.SpecialFunctions.Sqrt
 import Mathlib.Tactic.Linarith
 import Mathlib.Tactic.Ring
-import Mathlib.Tactic.Positivity
-import Mathlib.Tactic.FieldSimp
 /-!
 [EX] helper lemmas about `Model/Vana.lean` (C14, VanaStateSpace) over ℝ (instance of `Proofs/DubinsReal.lean`):
 the curvature budget `1/rh² + 1/rv² = 1/rho²`, the pitch range the validity test of `decoupled` guarantees on the
